@@ -24,7 +24,7 @@ class TranslateError(Exception):
 #       | ('ifa', e1, e0)            -- np.where(a == 1, e1, e0)  (a is the boolean row attribute)
 #       | ('ifa0', e1, e0)           -- np.where(a == 0, e1, e0)
 #       | ('invinf', e)              -- 1/e if e != 0 else inf
-IRRATIONAL_CALLS = {'sqrt', 'ln', 'exp', 'zq'}
+IRRATIONAL_CALLS = {'sqrt', 'ln', 'exp', 'zq', 'expit'}
 
 
 def _is_np(node, name):
@@ -34,7 +34,8 @@ def _is_np(node, name):
 
 class FnTranslator:
     def __init__(self, name, params, config=None, oracle_assign=None, row_bool=None, ignore_calls=(),
-                 array_params=()):
+                 array_params=(), self_attrs=False):
+        self.self_attrs = self_attrs
         self.name = name
         self.params = list(params)
         self.config = dict(config or {})
@@ -60,6 +61,22 @@ class FnTranslator:
             if n.id not in self.defined:
                 raise TranslateError('unknown name %s in %s' % (n.id, self.name))
             return ('var', n.id)
+        if self.self_attrs and isinstance(n, ast.Subscript) and ast.unparse(n) == 'self.df[self.exposure]':
+            return ('inda',)
+        if self.self_attrs and isinstance(n, ast.Attribute) and isinstance(n.value, ast.Name) and n.value.id == 'self':
+            nm = n.attr.lstrip('_')
+            if nm not in self.inputs:
+                self.inputs.append(nm)
+                self.defined.add(nm)
+            return ('var', nm)
+        if (self.self_attrs and isinstance(n, ast.Subscript) and isinstance(n.value, ast.Attribute)
+                and isinstance(n.value.value, ast.Name) and n.value.value.id == 'self'
+                and isinstance(n.slice, ast.Constant) and isinstance(n.slice.value, int)):
+            nm = '%s_%d' % (n.value.attr.lstrip('_'), n.slice.value)
+            if nm not in self.inputs:
+                self.inputs.append(nm)
+                self.defined.add(nm)
+            return ('var', nm)
         if isinstance(n, ast.UnaryOp) and isinstance(n.op, ast.USub):
             return ('neg', self.expr(n.operand))
         if isinstance(n, ast.BinOp):
@@ -83,6 +100,11 @@ class FnTranslator:
                 return ('call', 'ln', self.expr(n.args[0]))
             if _is_np(f, 'exp') and len(n.args) == 1 and not n.keywords:
                 return ('call', 'exp', self.expr(n.args[0]))
+            if ast.unparse(f) == 'logistic.cdf' and len(n.args) == 1 and not n.keywords:
+                return ('call', 'expit', self.expr(n.args[0]))
+            if isinstance(f, ast.Name) and f.id == 'probability_to_odds' and len(n.args) == 1 and not n.keywords:
+                p = self.expr(n.args[0])
+                return ('bin', '/', p, ('bin', '-', ('num', Fraction(1)), p))
             if isinstance(f, ast.Name) and f.id == 'normal_ppf' and len(n.args) == 1 and not n.keywords:
                 return ('call', 'zq', self.expr(n.args[0]))
             if (isinstance(f, ast.Attribute) and f.attr == 'ppf' and isinstance(f.value, ast.Name)
@@ -225,6 +247,8 @@ def emit(e, dom):
         return '(%s %s %s)' % (emit(e[2], dom), e[1], emit(e[3], dom))
     if k == 'call':
         return '(%s %s)' % (e[1], emit(e[2], dom))
+    if k == 'inda':
+        return '(if v_a then %s else %s)' % (emit(('num', Fraction(1)), dom), emit(('num', Fraction(0)), dom))
     if k == 'ifa':
         return '(if v_a then %s else %s)' % (emit(e[1], dom), emit(e[2], dom))
     if k == 'ifa0':
@@ -239,7 +263,7 @@ def emit(e, dom):
 
 def rational(e, irr):
     k = e[0]
-    if k == 'num':
+    if k in ('num', 'inda'):
         return True
     if k == 'var':
         return e[1] not in irr
@@ -257,7 +281,7 @@ def rational(e, irr):
 
 
 def uses_a(e):
-    if e[0] in ('ifa', 'ifa0'):
+    if e[0] in ('ifa', 'ifa0', 'inda'):
         return True
     return any(uses_a(x) for x in e[1:] if isinstance(x, tuple))
 
@@ -281,9 +305,12 @@ def evalf(e, env, zq):
     if k == 'call':
         x = evalf(e[2], env, zq)
         try:
-            return {'sqrt': math.sqrt, 'ln': math.log, 'exp': math.exp, 'zq': zq}[e[1]](x)
+            return {'sqrt': math.sqrt, 'ln': math.log, 'exp': math.exp, 'zq': zq,
+                    'expit': lambda t: 1.0 / (1.0 + math.exp(-t))}[e[1]](x)
         except ValueError:
             return float('nan')
+    if k == 'inda':
+        return 1.0 if env['__a'] else 0.0
     if k == 'ifa':
         return evalf(e[1], env, zq) if env['__a'] else evalf(e[2], env, zq)
     if k == 'ifa0':
@@ -444,6 +471,7 @@ def translate_function(path, qualname, name=None, config=None, drop_params=(), *
 
 HEADER_R = """(* GENERATED by /verif/harness/translate.py from /repo -- do not edit *)
 From Coq Require Import Reals.
+From Zepid Require Import Base.Expit.
 Open Scope R_scope.
 """
 HEADER_Q = """(* GENERATED by /verif/harness/translate.py from /repo -- do not edit *)
